@@ -408,6 +408,15 @@ class CallMixin:
             return self.getattr_(st, obj, attr, node)
         if f is setattr:
             obj, attr, val = args
+            if isinstance(attr, SStr) and isinstance(obj, SRef):
+                # a symbolic name: only through a repo class's own __setattr__ hook (which then decides what the name means)
+                hooks = set()
+                for c in self.classes_of(st, obj):
+                    hooks.add(next((k.__dict__["__setattr__"] for k in c.__mro__
+                                    if "__setattr__" in k.__dict__ and k is not object), None))
+                if len(hooks) == 1 and None not in hooks and self.in_repo(next(iter(hooks))):
+                    return [(s2, r if isinstance(r, Exc) else None)
+                            for s2, r in self.call_function(st, next(iter(hooks)), [obj, attr, val], {}, node)]
             if not isinstance(attr, str):
                 raise Unsupported("setattr with symbolic name", node)
             return [(s, r) for s, r in self.setattr_(st, obj, attr, val, node)]
